@@ -1,7 +1,7 @@
 SPECIFICATION Spec
 CONSTANTS
   B = 4
-  Conns = {0, 1, 2}
+  Conns = {0, 1}
   Versions = {20}
   ObjUuids = {101, 102}
   SvcUuids = {201}
@@ -18,7 +18,7 @@ CONSTANTS
   WrongKinds = {}
   MsgBudget = 3
   InitSerial = 0
-  Senders = {0, 1, 2}
+  Senders = {0, 1}
   PoolKinds = {"live", "dead", "never"}
   ScriptSel = "svc"
   V0 = 20
